@@ -8,6 +8,7 @@ import (
 	"encoding/json"
 	"fmt"
 	"hash/fnv"
+	"io"
 	"math/rand/v2"
 	"runtime/debug"
 	"sort"
@@ -49,6 +50,8 @@ type (
 	}
 	// Racer asks for the race-detector flavour of the worker.
 	Racer interface{ Race(t Tier) bool }
+	// CallLogger asks for a call record (with the full input) to be logged before every guarded call.
+	CallLogger interface{ LogCalls() bool }
 	// Repeater asks for every batch to be executed in P fresh processes whose digest vectors must agree.
 	Repeater interface{ Processes(t Tier) int }
 )
@@ -99,7 +102,11 @@ type Case struct {
 	B    *BatchResult
 	// Replay is true when a single case is re-executed from a witness file.
 	Replay bool
-	digest strings.Builder
+	// LogCalls makes CallChecked append a call record (operation + full input) to the batch log BEFORE
+	// the call, so that a process death (fatal error, stack overflow) identifies the exact input.
+	LogCalls bool
+	Logf     io.Writer
+	digest   strings.Builder
 }
 
 func hash64(parts ...string) uint64 {
@@ -193,6 +200,13 @@ func Call(f func()) (o Outcome) {
 // CallChecked is Call plus the standard handling: a library panic or a step overrun is a violation.
 // It returns false when the call did not complete normally.
 func (c *Case) CallChecked(op string, input any, f func()) bool {
+	if c.LogCalls && c.Logf != nil {
+		data, _ := json.Marshal(map[string]any{"op": op, "input": input})
+		if len(data) > 20000 {
+			data = append(data[:20000], []byte("...(truncated)")...)
+		}
+		fmt.Fprintf(c.Logf, "input %d %s\n", c.Idx, data)
+	}
 	o := Call(f)
 	if o.Steps > c.B.MaxSteps {
 		c.B.MaxSteps = o.Steps
